@@ -946,6 +946,10 @@ static size_t ZDICT_addEntropyTablesFromBuffer_advanced(
     U32 const notificationLevel = params.notificationLevel;
     size_t hSize = 8;
 
+    /* The dictionary content must be at least as large as the largest repcode,
+     * otherwise neither the compressor nor the decompressor loads the result */
+    if (dictContentSize < (size_t)ZDICT_maxRep(repStartValue)) return ERROR(dictionaryCreation_failed);
+
     /* calculate entropy tables */
     DISPLAYLEVEL(2, "\r%70s\r", "");   /* clean display line */
     DISPLAYLEVEL(2, "statistics ... \n");
